@@ -217,7 +217,7 @@ func canon(o *observation, an *analysis) string {
 func main() {
 	env, rep := vh.Parse("C06")
 	reexecForRaceLog(env)
-	if *flagChild != "" || *flagChildD42 {
+	if *flagChild != "" || *flagChildD42 || *flagChildD70 {
 		childMain(env)
 		return
 	}
